@@ -40,6 +40,11 @@ TYPED = ["User-Agent", "Accept", "Allow", "Authorization", "Content-Type", "Cach
          "Server", "Access-Control-Allow-Origin", "Access-Control-Allow-Headers", "Access-Control-Expose-Headers", "Access-Control-Allow-Methods"]
 
 
+# a space or '?' in the path, '&' / '=' / a space in a query name or value: written into the request line as they are (open finding
+# C02-request-target-not-escaped, named case by case; the expectation is the property's: arrives as built)
+NOT_ESCAPED = ['Q 1 2f702071 - - -', 'Q 1 2f703f71 - - -', 'Q 1 2f70 61=622663 - -', 'Q 1 2f70 61=622063 - -', 'Q 1 2f70 613d62=63 - -']
+
+
 class C02(Spec):
     pid = "C02"
     area = "wire"
@@ -67,7 +72,7 @@ class C02(Spec):
         return bytes(rng.choice(TOK) for _ in range(rng.randint(lo, hi)))
 
     def gen(self, rng, tier):
-        cases = []
+        cases = list(NOT_ESCAPED)
         # typed headers that did not survive the trip on the pinned tree (fixed: c0eb64e, 2d1306b, 65f6d14)
         for nm, val in (("User-Agent", "demo-agent/1.0"), ("Allow", "GET, POST"), ("Accept", "text/html, application/json"),
                         ("Accept", "*/*"), ("Allow", "DELETE")):
